@@ -10,11 +10,25 @@ IMPORTS = 'From Tranp Require Import Model.Runner.'
 TYPES = [('int', '1'), ('str', "'s'"), ('float', '1.5'), ('bool', 'True')]
 
 
-def module_src(i, imports, variant, comment):
+MODS = ['m1', 'm10', 'm2', 'm1x']      # file names by module index: in string-prefix relation on purpose (m1 / m10 / m1x)
+
+
+def mod(i):
+    return MODS[i]
+
+
+def idx_of(f):
+    """module index of an output / cache file name"""
+    base = os.path.basename(f)
+    stem = base[:-2] if base.endswith('.h') else base.split('-')[0]
+    return MODS.index(stem)
+
+
+def module_src(i, imports, variant, comment, pkg='proj'):
     """module i: imports f_j and the module-level variable v_j of every imported module; its own v_i is
     inferred from the first import (so types flow along import chains), f_i returns a literal of the variant type"""
     t, lit = TYPES[variant % len(TYPES)]
-    lines = ['from proj.m%d import f%d, v%d, w%d' % (j, j, j, j) for j in imports]
+    lines = ['from %s.%s import f%d, v%d, w%d' % (pkg, mod(j), j, j, j) for j in imports]
     if lines:
         lines.append('')
     lines.append('v%d = %s' % (i, 'v%d' % imports[0] if imports else lit))
@@ -47,7 +61,7 @@ def gen_graph(rnd):
         imps[n - 1] = list(range(1, n - 1)) or [0]
     elif shape == 'random':
         for i in range(1, n):
-            imps[i] = sorted(rnd.sample(range(i), rnd.randint(0, min(2, i))))
+            imps[i] = rnd.sample(range(i), rnd.randint(0, min(2, i)))      # (the order of the import statements varies too)
     return n, shape, imps
 
 
@@ -66,31 +80,38 @@ def run(ctx: Ctx) -> None:
         n, shape, imps = gen_graph(rnd)
         proj_dir = os.path.join(root, 'c06_%d' % hidx)
         outdirs = rnd.choice([['./out'], ['proj/*:gen', './out'], ['proj/:flat', './out']])
-        p = cli.Project(proj_dir, output_dirs=outdirs)
+        pkg = 'proj'
+        if hidx % 4 == 3:
+            pkg, outdirs = 'proj_' + 'x' * 64, ['./out']       # a module path of more than 63 characters: the header line exceeds 256 characters
+        p = cli.Project(proj_dir, pkg=pkg, output_dirs=outdirs)
         variant = {i: 0 for i in range(n)}
         comment = {i: 0 for i in range(n)}
         for i in range(n):
-            p.edit('m%d' % i, module_src(i, imps[i], 0, 0))
+            p.edit(mod(i), module_src(i, imps[i], 0, 0, pkg))
         hist = []
         ops_model = []
         written_impl = []
         edited_since_run = set()
         nontrivial = False
-        for step in range(rnd.randint(2, 6)):
-            k = rnd.random()
+        fixed = [.9, .1] if hidx == 1 else None      # the second history is always: run; an edit that keeps an old time stamp
+        for step in range(len(fixed) if fixed else rnd.randint(2, 6)):
+            k = fixed[step] if fixed else rnd.random()
             if k < .35:
                 m = rnd.randrange(n)
-                if rnd.random() < .7:
-                    variant[m] = rnd.randrange(len(TYPES))
+                if rnd.random() < .7 or fixed:
+                    variant[m] = (variant[m] + 1) % len(TYPES) if fixed else rnd.randrange(len(TYPES))
                 else:
                     comment[m] += 1
-                p.edit('m%d' % m, module_src(m, imps[m], variant[m], comment[m]))
-                hist.append(('edit', m, variant[m], comment[m]))
+                p.edit(mod(m), module_src(m, imps[m], variant[m], comment[m], pkg))
+                restored = rnd.random() < .2 or bool(fixed)
+                if restored:
+                    os.utime(p.path(mod(m)), (1000000000, 1000000000))     # content changes, the time stamp is older than every output (a file restored from a backup)
+                hist.append(('edit', m, variant[m], comment[m], 'old-mtime' if restored else 'now'))
                 ops_model.append('(Edit nat %d %d)' % (m, variant[m] * 100 + comment[m]))
                 edited_since_run.add(m)
             elif k < .5 and p.outputs():
                 m = rnd.randrange(n)
-                target = [f for f in p.outputs() if f.endswith('m%d.h' % m)]
+                target = [f for f in p.outputs() if os.path.basename(f) == mod(m) + '.h']
                 if target:
                     os.remove(os.path.join(proj_dir, target[0]))
                     hist.append(('delete', m))
@@ -103,7 +124,7 @@ def run(ctx: Ctx) -> None:
                 if r[0] != 'ok':
                     ctx.violation('run-fails:' + r[0], 'a run of the command line application failed on a generated project', dict(history=hist, graph=imps, impl_result=r[1]))
                     break
-                wr = sorted(int(f.rsplit('m', 1)[1][:-2]) for f in after if f.endswith('.h') and '__init__' not in f and (f not in before or before[f][1] != after[f][1]))
+                wr = sorted(idx_of(f) for f in after if f.endswith('.h') and '__init__' not in f and (f not in before or before[f][1] != after[f][1]))
                 written_impl.append(wr)
                 hist.append(('runf',) if force else ('run',))
                 ops_model.append('(RunF nat)' if force else '(Run nat)')
@@ -121,11 +142,11 @@ def run(ctx: Ctx) -> None:
             ctx.violation('run-fails:' + (r[0] if r[0] != 'ok' else r2[0]), 'a run failed', dict(history=hist, graph=imps, impl_result=(r, r2)))
         elif a != b:
             stale = sorted(f for f in b if a.get(f) != b[f])
-            ms = [int(f.rsplit('m', 1)[1][:-2]) for f in stale if '__init__' not in f]
+            ms = [idx_of(f) for f in stale if '__init__' not in f]
             own_header_current = all(MetaHeader.try_from_content(a[f]) == MetaHeader.try_from_content(b[f]) for f in stale if f in a)
             sig = 'stale-dependent' if own_header_current and all(imps[m] for m in ms) else 'stale-other'
             ctx.violation(sig, 'a non-forced run leaves an output that a forced run would write differently (%s)' % sig,
-                          dict(history=hist, graph=imps, output_dirs=outdirs, oracle_result={f: b[f][-200:] for f in stale}, impl_result={f: a.get(f, '')[-200:] for f in stale}))
+                          dict(history=hist, graph=imps, output_dirs=outdirs, pkg=pkg, oracle_result={f: b[f][-200:] for f in stale}, impl_result={f: a.get(f, '')[-200:] for f in stale}))
         # ---- the same after an upgrade of the application: headers written by an older version are stale ----
         if hidx % 2 == 0 and r[0] == 'ok' and r2[0] == 'ok':
             from rogw.tranp.data.version import Versions
@@ -219,18 +240,21 @@ def replay(ctx: Ctx, data: dict) -> int:
     imps = {int(k): v for k, v in data['graph'].items()}
     n = len(imps)
     proj_dir = os.path.join(scratch_cwd(), 'c06_replay')
-    p = cli.Project(proj_dir, output_dirs=data.get('output_dirs') or ['./out'])
+    pkg = data.get('pkg') or 'proj'
+    p = cli.Project(proj_dir, pkg=pkg, output_dirs=data.get('output_dirs') or ['./out'])
     variant = {i: 0 for i in range(n)}
     comment = {i: 0 for i in range(n)}
     for i in range(n):
-        p.edit('m%d' % i, module_src(i, imps[i], 0, 0))
+        p.edit(mod(i), module_src(i, imps[i], 0, 0, pkg))
     for op in data['history']:
         if op[0] == 'edit':
             variant[op[1]], comment[op[1]] = op[2], op[3]
-            p.edit('m%d' % op[1], module_src(op[1], imps[op[1]], op[2], op[3]))
+            p.edit(mod(op[1]), module_src(op[1], imps[op[1]], op[2], op[3], pkg))
+            if len(op) > 4 and op[4] == 'old-mtime':
+                os.utime(p.path(mod(op[1])), (1000000000, 1000000000))
         elif op[0] == 'delete':
             for f in p.outputs():
-                if f.endswith('m%d.h' % op[1]):
+                if os.path.basename(f) == mod(op[1]) + '.h':
                     os.remove(os.path.join(proj_dir, f))
         else:
             p.run(force=op[0] == 'runf')
